@@ -2,19 +2,23 @@
 
    (lbo <hexstr> <offset> <hexlinestr> <line> <column> <wtab>)
         getLineByOffset called directly through the hook.
-   (json <transport> <fname-hex> <input> <err> <chunks> <stderr-hex> <rep> <wtab>)
+   (json <transport> <fname-hex> <input> <err> <chunks> <state> <stderr-hex> <rep> <wtab>)
         the command run on a JSON stream with one injected fault.
-          transport: seek | pipe        input: (in (r <count> <hex>) ...)  (concatenation of repeated blocks)
-          err: (syn <E>) (E = 1-based offset reported by an independent encoding/json decoder) | eof
-          chunks: (c <r1> ... <rn> <rerr>)  total bytes the command had read when it emitted the i-th
-                  value / the error (pipe); (c) for seek
+          transport: (seek [stream]) | (file) | (pipe <read policy> [stream])   stream = --stream
+          input: (in (r <count> <hex>) ...)  (concatenation of repeated blocks)
+          err: (syn <E> <Eraw>) | eof      E = 1-based offset of the offending byte (independent plain
+               encoding/json decoder); Eraw = the offset encoding/json gave the command (differs from E
+               only under --stream, where Token() does not report absolute offsets)
+          chunks: (c (<r1> <p1>) ... (<rn> <pn>) <rerr>)  bytes read / consumed (dec.InputOffset) when the
+                  i-th value was delivered, bytes read when the error was reported (pipe); (c) otherwise
+          state: (st <i.offset> <i.line>) observed at the error (pipe); (st) otherwise
           rep: (rep <line or -> <hexexcerpt> <column>) parsed from stderr by the harness
    (query <fname-hex> <contents-hex> <perr> <stderr-hex> <rep> <wtab>)   perr: (pe <Offset> <len Token>) | none
    (yaml <transport> <fname-hex> <contents-read-hex> <index> <stderr-hex> <rep> <wtab>)
    wtab: (sw w0 ... wn), wi = go-runewidth StringWidth of the first i bytes of the excerpt the implementation printed.
    A line wrapped as (spec <line>) is judged against Spec (Oracle.v) instead of against the model; then
    the verdict of a violation is (bad <family> ...) where <family> names the model-side explanation
-   (pipe-reset, cr-window) or "other". *)
+   (stream-offset, pipe-reset, cr-window) or "other". *)
 From Coq Require Import List ZArith NArith Bool String.
 From Verif Require Import common.Sexp c17.FastSexp c17.ErrPos c17.Spec c17.Oracle c17.Window.
 Import ListNotations.
@@ -109,41 +113,74 @@ Definition rep_faithful (kind fname shown : list N) (rep : option Z * list N * Z
   | None => prefixb (gojq_prefix ++ render kind fname [] false shown x 1 c) stderr
   end.
 
-Definition run_json (spec : bool) (transport : sexp) (fname c : list N) (err : sexp) (chunks : list Z)
-                    (stderr : list N) (rep : option Z * list N * Z) (tbl : list N * list Z) : sexp :=
+Fixpoint dec_steps (l : list sexp) : option (list (Z * Z) * Z) :=
+  match l with
+  | [Atom a] => match parse_Z a with Some z => Some ([], z) | None => None end
+  | SList [Atom r; Atom p] :: t =>
+      match parse_Z r, parse_Z p, dec_steps t with
+      | Some r, Some p, Some (st, e) => Some ((r, p) :: st, e)
+      | _, _, _ => None
+      end
+  | [] => Some ([], 0)
+  | _ => None
+  end.
+
+Fixpoint has_atom (s : string) (l : list sexp) : bool :=
+  match l with [] => false | x :: t => atom_is s x || has_atom s t end.
+
+Definition run_json (spec : bool) (transport : sexp) (fname c : list N) (err : sexp) (chunks : list sexp)
+                    (state : list sexp) (stderr : list N) (rep : option Z * list N * Z)
+                    (tbl : list N * list Z) : sexp :=
   let sw := swidth_of tbl in
-  let pipe := match transport with SList (t :: _) => atom_is "pipe" t | _ => false end in
+  let tl := match transport with SList l => l | _ => [] end in
+  let pipe := has_atom "pipe" tl in
+  let stream := has_atom "stream" tl in
   let e := match err with
-           | SList [_; Atom v] => match parse_Z v with Some z => Some (Some z) | None => None end
+           | SList [_; Atom v; Atom w] =>
+               match parse_Z v, parse_Z w with Some z, Some y => Some (Some (z, y)) | _, _ => None end
            | _ => if atom_is "eof" err then Some None else None
            end in
-  match e with
-  | None => A "undecodable"
-  | Some e =>
-      let '(contents, errline, je) :=
-        if pipe then pipe_report c chunks e else seek_report c e in
+  match e, dec_steps chunks with
+  | Some e, Some (steps, rerr) =>
+      let etrue := option_map fst e in
+      let eraw := option_map snd e in
       if spec then
         let '(l, x, col) := rep in
         (* without a printed line number the line is 1 (the renderer omits it only then) *)
         let line := match l with Some l => l | None => 1 end in
         let ctx := negb pipe in
-        let chk := fun line => match e with
+        let chk := fun line => match etrue with
                    | Some E => if (1 <=? E) && (E <=? zlen c) then pos_chk sw ctx c (Z.to_nat (E - 1)) x line col
                                else false
                    | None => pos_eof_chk sw ctx c x line col
                    end in
-        let disc := if pipe then pipe_discarded c chunks else seek_discarded c e in
+        let disc := if pipe then pipe_discarded c steps else seek_discarded c eraw in
         let lone := count_lone_cr c (Z.to_nat disc) in
         let family :=
-          if pipe && (match e with Some E => E <=? disc | None => zlen c <=? disc end) then A "pipe-reset"
+          if stream && negb (match etrue, eraw with Some a, Some b => a =? b | _, _ => true end)
+          then A "stream-offset"
+          else if pipe && (match etrue with Some E => E <=? disc | None => zlen c <=? disc end) then A "pipe-reset"
           else if (0 <? lone) && chk (line + lone) then A "cr-window"
           else A "other" in
         if negb (rep_faithful (codes "invalid json: ") fname fname rep stderr) then bad [A "unparsed-stderr"]
         else if chk line then A "ok"
         else bad [family]
       else
+        let '(contents, errline, je) :=
+          if pipe then pipe_report c steps rerr eraw else seek_report c eraw in
         let h := gojq_prefix ++ json_error_header sw fname contents errline je in
-        if prefixb h stderr then A "ok" else bad [hexa h]
+        let state_ok :=
+          match state with
+          | [Atom o; Atom l] =>
+              match parse_Z o, parse_Z l with
+              | Some o, Some l => let st := pipe_run c steps in (p_start st =? o) && (p_line st =? l)
+              | _, _ => false
+              end
+          | _ => true
+          end in
+        if negb state_ok then bad [A "state"; zat (p_start (pipe_run c steps)); zat (p_line (pipe_run c steps))]
+        else if prefixb h stderr then A "ok" else bad [hexa h]
+  | _, _ => A "undecodable"
   end.
 
 Definition run_query (spec : bool) (fname contents : list N) (perr : sexp) (stderr : list N)
@@ -193,12 +230,12 @@ Definition run_sexp (spec : bool) (e : sexp) : sexp :=
         (* (query fname contents perr stderr rep wtab): perr is not an Atom, handled below *)
         A "undecodable"
       else A "undecodable"
-  | SList [k; transport; Atom fname; inp; err; SList (_ :: chunks); Atom stderr; rep; wt] =>
+  | SList [k; transport; Atom fname; inp; err; SList (_ :: chunks); SList (_ :: state); Atom stderr; rep; wt] =>
       if atom_is "json" k then
-        match parse_hexs_fast fname, input_of inp, dec_Zs chunks, parse_hexs_fast stderr, dec_rep rep with
-        | Some fname, Some c, Some chunks, Some stderr, Some rep =>
-            run_json spec transport fname c err chunks stderr rep (wtab_of (snd (fst rep)) wt)
-        | _, _, _, _, _ => A "undecodable"
+        match parse_hexs_fast fname, input_of inp, parse_hexs_fast stderr, dec_rep rep with
+        | Some fname, Some c, Some stderr, Some rep =>
+            run_json spec transport fname c err chunks state stderr rep (wtab_of (snd (fst rep)) wt)
+        | _, _, _, _ => A "undecodable"
         end
       else A "undecodable"
   | SList [k; Atom fname; Atom contents; perr; Atom stderr; rep; wt] =>
